@@ -126,10 +126,23 @@ pub fn build(req: &Value, t: &Table, seed: u64) -> Built {
     Built { bytes, body, head_len }
 }
 
-pub fn observe(req: &Value, t: &Table, built: &Built, segs: Vec<Vec<u8>>) -> Value {
+/// an earlier request on the same connection object: query, several headers (standard, custom, cookie), a payload
+const PRELUDE: &[u8] = b"POST /pre/lude?pk=pv&k1=stale HTTP/1.1\r\nHost: prelude.example\r\nAuthorization: Bearer PRELUDE\r\nCookie: pre=lude\r\nX-Prelude: 1\r\nIf-Match: \"pre\"\r\nContent-Type: text/plain\r\nContent-Length: 7\r\n\r\nPREBODY";
+const PROBES: [&str; 6] = ["Host", "Authorization", "Cookie", "X-Prelude", "If-Match", "Content-Type"];
+
+pub fn observe(req: &Value, t: &Table, built: &Built, segs: Vec<Vec<u8>>) -> Value { observe_after(req, t, built, segs, false) }
+pub fn observe_after(req: &Value, t: &Table, built: &Built, segs: Vec<Vec<u8>>, prelude: bool) -> Value {
     let mut rd = ScriptedReader::new(segs);
     let mut vr = v::VRequest::new();
-    let res = util::block_on(async { vr.read(&mut rd).await });
+    if prelude {
+        // what Session::manage does between two requests: read, (handle,) clear_keeping, read_following
+        let mut pre = ScriptedReader::new(vec![PRELUDE.to_vec()]);
+        match util::block_on(async { vr.read(&mut pre).await }) { Ok(Some(())) => {} _ => return json!({"kind": "error", "status": 0, "starved": false, "note": "prelude refused"}) }
+        let _ = vr.get().payload().map(|p| p.len());
+        let carried = vr.clear_keeping(0..0);
+        assert_eq!(carried, 0);
+    }
+    let res = if prelude { util::block_on(async { vr.read_following(&mut rd, 0).await }).map(|o| o.map(|_| ())) } else { util::block_on(async { vr.read(&mut rd).await }) };
     match res {
         Err(e) => { let mut out = vec![]; util::block_on(async { v::send(e, &mut out).await }); let p = util::parse_response(&out, false);
                     json!({"kind": "error", "status": p.status, "starved": rd.starved > 0}) }
@@ -154,12 +167,17 @@ pub fn observe(req: &Value, t: &Table, built: &Built, segs: Vec<Vec<u8>>) -> Val
                     json!({"n": n, "typed": tv(typed), "get": tv(get), "getlower": tv(getlower)}) }).collect();
                 let pl = r.payload();
                 let dbg = format!("{:?}", r).len();
-                json!({"method": r.method.as_str(), "segs": segs, "query": query, "hdr": hdr,
+                let sent: Vec<String> = names.iter().map(|n| t.hname(n).to_ascii_lowercase()).collect();
+                let stale: Vec<&str> = PROBES.iter().filter(|p| !sent.contains(&p.to_ascii_lowercase()) && !(p.eq_ignore_ascii_case("content-type") && sent.iter().any(|x| x == "content-type")) && r.headers.get(p).is_some()).cloned().collect();
+                // the typed reading of the query: an absent/empty query must read as the empty map (the iterator skips parts without `=`,
+                // so a stale slice of an earlier request can hide from it)
+                let qempty = matches!(r.query.parse::<std::collections::BTreeMap<String, String>>(), Ok(m) if m.is_empty());
+                json!({"method": r.method.as_str(), "segs": segs, "query": query, "qempty": qempty, "hdr": hdr, "stale": stale,
                        "payload": {"present": pl.is_some(), "same": pl.map(|p| p == &built.body[..]).unwrap_or(false), "len": pl.map(|p| p.len() as i64).unwrap_or(0)}, "dbg": dbg as i64})
             }));
             match acc {
                 Ok(mut o) => { o["kind"] = json!("accepted"); o["starved"] = json!(rd.starved > 0); o["accpanic"] = json!(""); o["status"] = json!(0); o }
-                Err(_) => json!({"kind": "accepted", "status": 0, "starved": rd.starved > 0, "accpanic": "panic", "method": "", "segs": [], "query": [], "hdr": [], "payload": {"present": false, "same": false, "len": 0}}),
+                Err(_) => json!({"kind": "accepted", "status": 0, "starved": rd.starved > 0, "accpanic": "panic", "method": "", "segs": [], "query": [], "qempty": false, "hdr": [], "stale": [], "payload": {"present": false, "same": false, "len": 0}}),
             }
         }
     }
@@ -170,7 +188,21 @@ pub fn run(scn: &Value) -> Value {
     let seed = scn["seed"].as_u64().unwrap_or_else(|| scn["id"].as_u64().unwrap_or(0));
     let t = Table { alt: seed % 2 == 1 };
     let built = build(req, &t, seed);
-    let mut o = observe(req, &t, &built, vec![built.bytes.clone()]);
+    let mut o = match req["delivery"].as_str().unwrap_or("whole") {
+        "after" => observe_after(req, &t, &built, vec![built.bytes.clone()], true),
+        "split" => {
+            // every cut of the head (and a little beyond) into two reads; the first one whose outcome differs from the uncut delivery is reported
+            let whole = observe(req, &t, &built, vec![built.bytes.clone()]);
+            let mut out = whole.clone(); out["cut"] = json!(0);
+            let last = built.bytes.len().saturating_sub(1).min(built.head_len + 6);
+            for cut in 1..=last {
+                let mut o = observe(req, &t, &built, vec![built.bytes[..cut].to_vec(), built.bytes[cut..].to_vec()]);
+                if o != whole { o["cut"] = json!(cut as i64); out = o; break }
+            }
+            out
+        }
+        _ => observe(req, &t, &built, vec![built.bytes.clone()]),
+    };
     o["nbytes"] = json!(built.bytes.len() as i64);
     o["hex"] = json!(util::clip(&String::from_utf8_lossy(&built.bytes[..built.bytes.len().min(built.head_len)]).replace('\r', "\\r").replace('\n', "\\n"), 300));
     o
@@ -201,5 +233,5 @@ pub fn gen(rng: &mut Rng, i: usize) -> Value {
     let needs_hdr = ["trunc-header-name", "trunc-header-value", "header-no-colon", "nul-in-header-value", "nonutf8-in-header-value", "header-line-too-long"];
     if (needs_body.contains(&fault) && s(&body["size"]) == "none") || (needs_hdr.contains(&fault) && headers.is_empty()) { fault = "none" }
     json!({"id": i, "seed": rng.next() % 1000, "req": {"phase": "end", "method": m, "segs": segs, "trailing": nseg > 0 && rng.chance(1, 4), "query": query, "hasq": hasq,
-           "headers": headers, "body": body, "fault": fault}})
+           "headers": headers, "body": body, "fault": fault, "delivery": *rng.pick(&["whole", "whole", "whole", "split", "after"])}})
 }
